@@ -639,6 +639,14 @@ impl<'a> Monitor<'a>
             {
                 if issued.issue_ok && self.ents[e as usize].alive
                 {
+                    // the mirror observer's insert on entity 1 is applied, and its reactions scheduled, before the
+                    // command that schedules this insert's own reactions
+                    if self.cfg.mirror_observer && k == Comp::A && e == 0 && self.ents.len() > 1 && self.ents[1].alive
+                    {
+                        self.ents[1].comps[comp_idx(k)] = Some(v);
+                        let regs = self.matching_regs(|t| *t == Trig::EntityInsertion(k, 1) || *t == Trig::Insertion(k));
+                        self.fire(regs, Kind::Insertion(k), Some(Name::Ent(1)), None, cmd);
+                    }
                     self.ents[e as usize].comps[comp_idx(k)] = Some(v);
                     let regs = self.matching_regs(|t| *t == Trig::EntityInsertion(k, e) || *t == Trig::Insertion(k));
                     self.fire(regs, Kind::Insertion(k), Some(Name::Ent(e)), None, cmd);
